@@ -1,28 +1,28 @@
-"""Registry of claimed properties: the single source for MANIFEST.json (tools/mkmanifest.py)."""
+"""Registry of claimed properties: collected from checks/cNN.py modules.
 
-# id -> dict(category, text, note, technique, engine, design)
-CHECKS = {
-    "C01": dict(
-        category="model_checking",
-        engine="MergeAlgebra",
-        technique="TLA+ spec MergeAlgebra: TLC exhaustive on the model + TLC-judged traces of the real Merge<T>",
-        text=("TLC proves the transcribed simplify/flatten/write-back meet the C01 contracts for every merge over 3 "
-              "values up to 7 terms (4 values/9 terms thorough) and every 3x3 nesting; the real Merge<T> is then run "
-              "on the same exhaustive domain plus random merges up to 31 terms and every call is judged by TLC against "
-              "the same contracts (trace validation, I->S). Exhaustive within the bounds, sampled beyond."),
-        note="Values are integers (Merge<T> is generic in T: Eq). Trusted: TLC, the 60-line recorder in harness/jjconf/src/m_merge.rs.",
-        design="4 C01"),
-    "C02": dict(
-        category="model_checking",
-        engine="MergeAlgebra",
-        technique="TLA+ spec MergeAlgebra: TLC exhaustive on the model + TLC-judged traces of the real trivial_merge",
-        text=("TLC proves fast path = counting path and the cancellation contract TrivialOK on the model; the real "
-              "trivial_merge / resolve_trivial are run on every merge over 3 values up to 7 terms x {Keep, Accept} "
-              "(4/9 thorough) plus random up to 31 terms, each call judged by TLC."),
-        note="Statement leaves one zone open (same-change on, one surviving side, >=2 distinct surviving bases): either answer accepted there.",
-        design="4 C02"),
-}
+Each check module defines
+  META  = dict(category, engine, technique, text, note, design)   (MANIFEST fields)
+  READY = True      once the check passes on the unchanged tree (only then is it registered)
+  LEVEL = META["category"]
+  run(ctx)
+"""
+import glob
+import importlib
+import os
 
-# reasons for properties not claimed (yet)
+HERE = os.path.dirname(os.path.abspath(__file__))
+
+
+def collect():
+    out = {}
+    for p in sorted(glob.glob(os.path.join(HERE, "c[0-9][0-9].py"))):
+        name = os.path.basename(p)[:-3]
+        mod = importlib.import_module("checks." + name)
+        if getattr(mod, "READY", False) and hasattr(mod, "META"):
+            out[name.upper()] = mod.META
+    return out
+
+
+# reasons for properties not claimed (yet); keyed by id
 NOT_APPLICABLE = {}
 DEFAULT_NA = "not claimed yet: the specification module for this property (DESIGN.md section 4) is not built in this revision"
